@@ -137,23 +137,42 @@ def _handler_facts():
     return calls, uncond
 
 
+_PATTERNS = {}
+
+
+def _observed_patterns():
+    """The two regular expressions of check_fix_versions - the filter applied to the issue's fix versions and the
+    test applied to a single target version - observed on a private copy of the module (lib/reprobe.py), not read
+    from the AST: a pattern moved to a constant, built from parts or compiled in a helper is still found."""
+    if core.REPO in _PATTERNS:
+        return _PATTERNS[core.REPO]
+    from lib import reprobe
+    with reprobe.observe() as ev:
+        J = reprobe.fresh_module('bert_e/workflow/gitwaterflow/jira.py')
+        issue = SimpleNamespace(key='K-1', fields=SimpleNamespace(fixVersions=[SimpleNamespace(name='91.92.93')]))
+        job = SimpleNamespace(git=SimpleNamespace(cascade=SimpleNamespace(target_versions=['81.82.83.84'])),
+                              active_options=[])
+        try:
+            J.check_fix_versions(job, issue)
+        except Exception as e:
+            if type(e).__name__ != 'IncorrectFixVersion':
+                raise
+    v, vf = reprobe.the_pattern(ev, '91.92.93', 'check_fix_versions (issue versions)')
+    h, hf = reprobe.the_pattern(ev, '81.82.83.84', 'check_fix_versions (hotfix target)')
+    plain = re.compile('x').flags
+    if not isinstance(v, str) or not isinstance(h, str) or vf != plain or hf != plain:
+        raise ValueError('patterns of check_fix_versions have an unexpected shape: %r %r / %r %r' % (v, vf, h, hf))
+    _PATTERNS[core.REPO] = (v, h)
+    return v, h
+
+
 def _gate_facts():
     src = open(os.path.join(core.REPO, 'bert_e/workflow/gitwaterflow/jira.py')).read()
     tree = ast.parse(src)
     fn = _func(tree, 'jira_checks')
     gate = [_call_name(c) for c in _calls_in(fn) if isinstance(c.func, ast.Name) and c.func.id in GATE_HELPERS]
-    cf = _func(tree, 'check_fix_versions')
-    lits = {}
-    for st in ast.walk(cf):
-        if (isinstance(st, ast.Assign) and len(st.targets) == 1 and isinstance(st.targets[0], ast.Name)
-                and isinstance(st.value, ast.Call) and _call_name(st.value) == 'compile'):
-            a = st.value.args
-            if len(a) != 1 or not (isinstance(a[0], ast.Constant) and isinstance(a[0].value, str)):
-                raise ValueError('re.compile with a non literal argument in check_fix_versions')
-            lits[st.targets[0].id] = a[0].value
-    if set(lits) != {'vfilter', 'hf_filter'}:
-        raise ValueError('expected the two compiled patterns vfilter and hf_filter, found %r' % sorted(lits))
-    return gate, lits['vfilter'], lits['hf_filter']
+    vlit, hlit = _observed_patterns()
+    return gate, vlit, hlit
 
 
 def live_patterns():
@@ -334,13 +353,16 @@ def _cmdline(on):
         _CMDLINE_ON = on
 
 
-def _author_bypass():
-    """pr_author_options[author] as the real settings loader builds it."""
+def _author_bypass(other=False):
+    """pr_author_options[author] as the real settings loader builds it; other = the author is listed, with every
+    bypass except this one."""
     global _AUTHOR_BYPASS
     if _AUTHOR_BYPASS is None:
         from bert_e.settings import PrAuthorsOptions
-        _AUTHOR_BYPASS = PrAuthorsOptions().deserialize({'author': [OPTION]})['author']
-    return _AUTHOR_BYPASS
+        rest = [b for b in PrAuthorsOptions.BYPASS_LIST if b != OPTION]
+        _AUTHOR_BYPASS = (PrAuthorsOptions().deserialize({'author': [OPTION]})['author'],
+                          PrAuthorsOptions().deserialize({'author': rest})['author'])
+    return _AUTHOR_BYPASS[1 if other else 0]
 
 
 def make_job(source, dst_objects, target_versions, cfg, bypass):
@@ -356,7 +378,8 @@ def make_job(source, dst_objects, target_versions, cfg, bypass):
     Reactor().init_settings(SimpleNamespace(settings=settings))
     if bypass == 'comment':
         settings[OPTION] = True           # what set_option does for an accepted comment
-    author_bypass = _author_bypass() if bypass == 'author' else {}
+    author_bypass = (_author_bypass() if bypass == 'author' else
+                     _author_bypass(other=True) if bypass == 'author_other' else {})
     active = [k for k, v in settings.items() if v is True and k.startswith('bypass_')] + \
              [k for k, v in author_bypass.items() if v]
     _Server.expect = (cfg['jira_account_url'], cfg['jira_email'], 'tok')
@@ -541,7 +564,7 @@ def gate_applies(case):
 
 # ------------------------------------------------------------------------------------ domain
 
-BYPASSES = ['none', 'comment', 'author', 'cmdline']
+BYPASSES = ['none', 'comment', 'author', 'cmdline', 'author_other']
 
 STD = dict(bypass_prefixes=[], jira_keys=['PROJ', 'OPS_2', '12'], jira_email='bot@example.org',
            jira_account_url='https://jira.example.org', prefix_keys=['Bug', 'Story'], disable_version_checks=False)
